@@ -73,7 +73,9 @@ pub struct StreamPlan {
     /// 0 = one-byte characters, 1 = mixed 1..4-byte characters (chunks split them)
     pub kind: u8,
     pub seed: u32,
-    /// Some(p): byte at p/1000 of the length is replaced by 0xFF (never valid in UTF-8)
+    /// Some(p <= 1000): byte at p/1000 of the length is replaced by 0xFF (never valid in UTF-8);
+    /// Some(p > 1000): a malformed sequence (truncated / overlong / surrogate / stray) at the start,
+    /// middle or end, see `content`
     pub invalid: Option<u16>,
     /// sizes of the leading chunks; what is left goes out in one last chunk
     pub chunks: Vec<u32>,
@@ -257,8 +259,33 @@ pub fn content(s: &StreamPlan, len: usize, is_err: bool) -> Vec<u8> {
     if let Some(p) = s.invalid
         && len > 0
     {
-        let at = (usize::from(p) * len / 1000).min(len - 1);
-        out[at] = 0xFF;
+        if p <= 1000 {
+            let at = (usize::from(p) * len / 1000).min(len - 1);
+            out[at] = 0xFF;
+        } else {
+            // malformed sequences made of bytes that are each possible in UTF-8
+            let (seq, place): (&[u8], u8) = match p {
+                1001 => (&[0xC3], 2),             // output ends inside a 2-byte character
+                1002 => (&[0xE2, 0x82], 2),       // ... inside a 3-byte character
+                1003 => (&[0xF0, 0x9F, 0x98], 2), // ... inside a 4-byte character
+                1004 => (&[0x80], 2),             // stray continuation byte at the end
+                1005 => (&[0xC3, b'x'], 1),       // truncated character in the middle
+                1006 => (&[0xE2, 0x82, b'x'], 1),
+                1007 => (&[0xC0, 0x80], 1),       // overlong encoding
+                1008 => (&[0xED, 0xA0, 0x80], 1), // surrogate
+                1009 => (&[0xF4, 0x90, 0x80, 0x80], 1), // above U+10FFFF
+                1010 => (&[0x80], 0),             // stray continuation byte at the start
+                1011 => (&[0xF8], 0),
+                _ => (&[0xF0, 0x9F], 2),
+            };
+            let n = seq.len().min(len);
+            let at = match place {
+                0 => 0,
+                1 => (len / 2).min(len - n),
+                _ => len - n,
+            };
+            out[at..at + n].copy_from_slice(&seq[..n]);
+        }
     }
     out
 }
@@ -889,6 +916,17 @@ pub fn check_case(ctx: &mut ShardCtx, case: &Case) -> Outcome {
             }
         }
     }
+    for (pol, bytes) in [(case.out_pol, &m.out_bytes), (case.err_pol, &m.err_bytes)] {
+        if pol == Pol::Capture
+            && let Err(e) = std::str::from_utf8(bytes)
+        {
+            ctx.class(if e.error_len().is_none() {
+                "captured stream ends inside a multi-byte character (valid up to there)"
+            } else {
+                "captured stream contains a malformed sequence before its end"
+            });
+        }
+    }
     if m.errors.is_empty() {
         ctx.class("expected: complete result");
     }
@@ -978,7 +1016,7 @@ fn stream_strategy() -> impl Strategy<Value = StreamPlan> {
         len_strategy(),
         0u8..2,
         any::<u32>(),
-        prop_oneof![12 => Just(None), 1 => (0u16..1000).prop_map(Some)],
+        prop_oneof![12 => Just(None), 1 => (0u16..1000).prop_map(Some), 1 => (1001u16..1013).prop_map(Some)],
         prop::collection::vec(
             prop_oneof![
                 4 => 1u32..16,
